@@ -115,7 +115,7 @@ Section P.
       with true by (symmetry; apply Nat.leb_le; exact Hlen).
     rewrite String.eqb_refl. cbn [andb]. rewrite Hlt, Hti. cbn [bind].
     cbn [app scan]. rewrite Hs1, Hs2, Hs3.
-    rewrite (scan_events tok_float tok_int pdg_valid fmt attrs evs 0 Hev). cbn [bind fst snd num_skip num_read].
+    rewrite (scan_events tok_float tok_int pdg_valid fmt attrs evs 0 Hev). cbn [bind fst snd num_skip num_read sel_first sel_counts].
     rewrite !Nat2Z.id.
     rewrite (sum_counts_ok a evs 0 0) by lia. cbn [skipn bind]. fold A.
     replace (Z.to_nat (Z.of_nat b - Z.of_nat a + 1)) with (b - a + 1)%nat by lia.
@@ -138,12 +138,11 @@ Section P.
       unfold render_events at 1 2. cbn [flat_map]. unfold render_event at 1 2. cbn [app List.length].
       destruct (has "#" (e_head e0)); [reflexivity|]. cbn in Hk. discriminate. }
     rewrite Hfirst. cbn [bind].
-    pose proof (rl_events tok_float tok_int pdg_valid fmt attrs B a 0 (render_events C)
-                 {| plist := []; data := []; counts := counts_from 0 evs; cut := 0 |} HwB eq_refl) as Hrl.
+    pose proof (rl_events tok_float tok_int pdg_valid (Z.of_nat a) fmt attrs B a 0 (render_events C)
+                 {| plist := []; data := []; counts := slice a (b - a + 1) (counts_from 0 evs); cut := 0 |} HwB eq_refl) as Hrl.
     rewrite Nat.add_0_r in Hrl. rewrite Hrl.
     cbn [read_loop bind add_events plist cut counts app fst snd].
-    unfold sliced, slice. fold evs. fold B.
-    replace (Z.of_nat b - Z.of_nat a + 1)%Z with (Z.of_nat (b - a + 1)) by lia.
+    unfold sliced, slice. fold evs. fold B. rewrite map_length, HlenB.
     destruct (map (fun e => parse_rows fmt attrs (e_rows e)) B) eqn:EM.
     { apply (f_equal (@List.length _)) in EM. rewrite map_length, HlenB in EM. cbn in EM. lia. }
     reflexivity.
@@ -187,48 +186,25 @@ Section P.
     cbn [sum_counts]. destruct (zcount cnts (Z.to_nat k)); cbn [bind]; [f_equal; lia|reflexivity].
   Qed.
 
-  Theorem load_single_is_range file k r : (0 <= k)%Z ->
-    LOAD file (SelRange k k) = Ok r -> l_counts r <> [] -> LOAD file (SelOne k) = Ok r.
+  Theorem load_single_is_range file k : (0 <= k)%Z ->
+    LOAD file (SelOne k) = LOAD file (SelRange k k).
   Proof.
-    intros Hk. unfold load. destruct file as [|first rest]; [discriminate|].
-    destruct (oscar_format first) as [fa|]; [|discriminate]. cbn [bind].
-    destruct (if _ : bool then Err OtherError else Ok tt) as [u|]; [|discriminate]. cbn [bind].
-    destruct (num_events_of tok_int (last (first :: rest) [])) as [nev|]; [|discriminate]. cbn [bind].
-    destruct (scan tok_int (first :: rest)) as [sc|]; [|discriminate]. cbn [bind].
+    intros Hk. unfold load. destruct file as [|first rest]; [reflexivity|].
+    destruct (oscar_format first) as [fa|]; [|reflexivity]. cbn [bind].
+    destruct (if _ : bool then Err OtherError else Ok tt) as [u|]; [|reflexivity]. cbn [bind].
+    destruct (num_events_of tok_int (last (first :: rest) [])) as [nev|]; [|reflexivity]. cbn [bind].
+    destruct (scan tok_int (first :: rest)) as [sc|]; [|reflexivity]. cbn [bind].
     change (num_skip (SelOne k) (fst sc)) with (num_skip (SelRange k k) (fst sc)).
-    destruct (num_skip (SelRange k k) (fst sc)) as [ns|]; [|discriminate]. cbn [bind].
     rewrite (num_read_one k (fst sc) Hk).
-    destruct (num_read (SelRange k k) (fst sc)) as [nr|]; [|discriminate]. cbn [bind].
-    destruct (match skipn (Z.to_nat ns) (first :: rest) with [] => Ok tt | l0 :: _ => _ end) as [u2|]; [|discriminate].
-    cbn [bind].
-    destruct (RL (fst fa) (snd fa) (Z.to_nat nr) (skipn (Z.to_nat ns) (first :: rest)) _) as [st|]; [|discriminate].
-    cbn [bind]. replace (Z.to_nat (k - k + 1)) with 1%nat by lia. replace (k - k + 1)%Z with 1%Z by lia.
-    unfold slice. intros H. injection H as <-. cbn [l_counts].
-    destruct (nth_error (counts st) (Z.to_nat k)) as [c|] eqn:E.
-    - intros _. cbn [bind fst snd].
-      assert (Hs : firstn 1 (skipn (Z.to_nat k) (counts st)) = [c]).
-      { clear - E. revert E. generalize (Z.to_nat k) as n. generalize (counts st) as l.
-        induction l as [|x t IH]; intros [|n] E; try discriminate.
-        - inversion E; reflexivity.
-        - cbn in E |- *. apply IH, E. }
-      change (match skipn (Z.to_nat k) (counts st) with [] => [] | a :: _ => [a] end)
-        with (firstn 1 (skipn (Z.to_nat k) (counts st))). rewrite Hs. reflexivity.
-    - intros Hne. exfalso. apply Hne.
-      apply nth_error_None in E. rewrite skipn_all2 by exact E. reflexivity.
+    cbn [sel_first sel_counts]. replace (Z.to_nat (k - k + 1)) with 1%nat by lia. reflexivity.
   Qed.
 
   Corollary load_single d fmt attrs (k : nat) :
     wf tok_float tok_int pdg_valid d fmt attrs -> (k < List.length (d_events d))%nat ->
     LOAD (render d) (SelOne (Z.of_nat k)) = Ok (sliced d fmt attrs k 1).
   Proof.
-    intros Hwf Hk. apply load_single_is_range; [lia| |].
-    - rewrite (load_range d fmt attrs k k Hwf) by lia. replace (k - k + 1)%nat with 1%nat by lia. reflexivity.
-    - unfold sliced. cbn [l_counts].
-      destruct (nth_error (d_events d) k) as [e|] eqn:E; [|apply nth_error_None in E; lia].
-      pose proof (counts_from_nth (d_events d) 0 k e E) as Hn.
-      intros Hnil. assert (Hl : List.length (firstn 1 (skipn k (counts_from 0 (d_events d)))) = 1%nat).
-      { rewrite firstn_length, skipn_length, counts_len. lia. }
-      rewrite Hnil in Hl. discriminate.
+    intros Hwf Hk. rewrite load_single_is_range by lia.
+    rewrite (load_range d fmt attrs k k Hwf) by lia. replace (k - k + 1)%nat with 1%nat by lia. reflexivity.
   Qed.
 
   (* the selected events' own impact parameters *)
